@@ -7,13 +7,13 @@
    queues -- from which props/C01.v shows it is handed to the application intact and in order.
    Only statements closed by [exact] + Print Assumptions. *)
 From Coq Require Import ZArith Bool List.
-From Sctp Require Import Gen SnaProofs Sender RPQ RPQProofs Live LiveSender LiveProofs LiveReach.
+From Sctp Require Import Gen SnaProofs Sender SenderProofs RPQ RPQProofs Live LiveSender LiveProofs LiveReach.
 Import ListNotations.
 Open Scope Z_scope.
 
 Theorem c01_acknowledged_only_if_received : forall s K m evs,
-  Sl s K -> st_infl s = [] -> 1 <= m < 2147483584 -> 0 < st_mtu s ->
-  let y0 := mkLs (mkLv s (rpq_init (rpq_new m) (wrap32 K))) K (mkGhost K [] []) [] in
+  Sl s K -> st_infl s = [] -> 1 <= m < 2147483584 -> 0 < st_mtu s -> BI s [] ->
+  let y0 := mkLs (mkLv s (rpq_init (rpq_new m) (wrap32 K))) K (mkGhost K [] []) [] [] in
   lrun_ok y0 evs ->
   let y := lrun y0 evs in
   st_cum (lv_s (ls_st y)) = wrap32 (ls_K y) /\ ls_K y <= gK (ls_g y) /\ cum (lv_q (ls_st y)) = wrap32 (gK (ls_g y)) /\
